@@ -6,7 +6,7 @@ from pyvc import extract, symex
 from pyvc.check import UnitResult
 
 
-def run_contract(prop, target, contract, setups, name=None, to_case=None, post_run=None, replay_module=None):
+def run_contract(prop, target, contract, setups, name=None, to_case=None, post_run=None, replay_module=None, fname=None):
     """symbolically execute `target` once per setup (a setup is a callable (ex, st) building the
     entry state; several setups = case split over configurations) and collect the obligations"""
     u = UnitResult(name or target[1])
@@ -20,6 +20,8 @@ def run_contract(prop, target, contract, setups, name=None, to_case=None, post_r
     u.replay_module = replay_module
     for label, setup in setups:
         ex = symex.Executor(fx, contract, prop)
+        if fname:
+            ex.fname = fname
         ex.case_label = label
         st = symex.State()
         try:
@@ -186,7 +188,7 @@ def unit_pre(prop, which):
     def unit(tier, known):
         from contracts import pre as C
         cls = {"preemph": "Preemphasize", "dither": "Dither"}[which]
-        return run_contract(prop, ("pre", f"{cls}.apply"), getattr(C, "contract_" + which)(), [("", C.setup)], name="pre_" + which,
+        return run_contract(prop, ("pre", f"{cls}.apply"), getattr(C, "contract_" + which)(), [("", C.setup)], name="pre_" + which, fname=f"{cls}.apply",
                             to_case=C.to_case, replay_module="rtc.c18")
     unit.__name__ = "pre_" + which
     return unit
